@@ -866,6 +866,9 @@ func refNextOp(s []byte, i int) (op byte, data []byte, next int, ok bool) {
 
 // refEvalScript: EvalScript of the node for one script on the shared data stack.
 func refEvalScript(s []byte, after bool, flags scriptflag.Flag, st *refStacks) int {
+	if !after && len(s) > 10000 {
+		return refErr // MAX_SCRIPT_SIZE before Genesis
+	}
 	ctl := &refCtl{}
 	maxOps := 500
 	if after {
@@ -945,6 +948,24 @@ func refVerifyScript(us, ls []byte, flags scriptflag.Flag) int {
 	return refOK
 }
 
+// vlongScript: a push-only script of exactly n bytes (n around the 10,000-byte limit): nineteen
+// 520-byte pushes and one direct push, every byte 01.
+func vlongScript(n int) []byte {
+	var s []byte
+	for i := 0; i < 19; i++ {
+		s = append(s, bscript.OpPUSHDATA2, 0x08, 0x02)
+		for j := 0; j < 520; j++ {
+			s = append(s, 1)
+		}
+	}
+	r := n - len(s) - 1
+	s = append(s, byte(r))
+	for j := 0; j < r; j++ {
+		s = append(s, 1)
+	}
+	return s
+}
+
 var vC05FlagSets = []scriptflag.Flag{
 	0,
 	scriptflag.UTXOAfterGenesis,
@@ -960,7 +981,11 @@ var vC05FlagSets = []scriptflag.Flag{
 func VH_C05_Execute() {
 	vunwindCut(vparam("U", 8))
 	var usb []byte
-	switch vnondetLen("us-kind", 0, 8) {
+	switch vnondetLen("us-kind", 0, 8+2*vparam("LONG", 0)) {
+	case 9:
+		usb = vlongScript(10000) // at the pre-Genesis script size limit
+	case 10:
+		usb = vlongScript(10001) // one byte over it
 	case 1:
 		usb = []byte{bscript.Op1}
 	case 2:
@@ -983,7 +1008,11 @@ func VH_C05_Execute() {
 	if vparam("HEAD", 0) == 1 {
 		lsb = append(lsb, [][]byte{{}, {bscript.Op1}, {bscript.Op0, bscript.OpIF}, {bscript.Op1, bscript.OpIF}, {bscript.OpDUP}}[vnondetLen("ls-head", 0, 4)]...)
 	}
-	lsb = append(lsb, vnondetBytes("ls", 1, vparam("L", 1))...)
+	if vparam("LONG", 0) == 1 && vnondetBool("ls-long") {
+		lsb = vlongScript(10000 + vnondetLen("ls-over", 0, 1))
+	} else {
+		lsb = append(lsb, vnondetBytes("ls", 1, vparam("L", 1))...)
+	}
 	if vparam("TAIL", 0) == 1 {
 		lsb = append(lsb, [][]byte{{}, {bscript.Op1}, {bscript.OpDROP}, {bscript.OpENDIF}, {bscript.OpELSE, bscript.Op1, bscript.OpENDIF}, {bscript.OpVERIFY}, {bscript.OpRETURN}, {bscript.OpFROMALTSTACK}, {bscript.OpEQUAL}, {bscript.OpADD}}[vnondetLen("ls-tail", 0, 9)]...)
 	}
